@@ -618,6 +618,14 @@ fn replay(args: &Args) {
         if imp.is_none() {
             imp = Some(rt.block_on(Impl::new()));
         }
+        // `bin/check Cxx --replay <case>` of an expansion finding: the case wraps the behaviour;
+        // run it with the expansion at every honest ingest step
+        let b = if b.get("behaviour").is_some() {
+            expand.every = 1;
+            &b["behaviour"]
+        } else {
+            b
+        };
         let r = catch(|| rt.block_on(async {
             let imp = imp.as_ref().unwrap();
             imp.wipe().await?;
